@@ -1,7 +1,11 @@
 (* C17  Orientation and in-sphere tests return the exact sign.
    Only statements, each closed by [exact] of a lemma of Cxx/C17_*.v.
    Points are triples of 64 bit patterns of doubles; [coordR bits] = 1 + mantissa/2^52 is the
-   real value of a pattern in [1,2). *)
+   real value of a pattern in [1,2).
+   Status: (i) exact = sign of the real determinant, (ii) no overflow of the 256/278 bit types, (iii) permutations
+   (transpositions and all 24/120 permutations), (iv) result = Z.sgn, (v) filter soundness are all proved for ALL
+   inputs (in range where the header requires it); nothing is partial.  The model (C17_Defs.v) is tied to
+   src/ExactGeometricTests.hpp by the correspondence run of props/c17.py. *)
 From Coq Require Import ZArith List Bool Reals Permutation.
 From Flocq Require Import Core BinarySingleNaN.
 Require Flocq.IEEE754.PrimFloat.
